@@ -184,6 +184,25 @@ def battery(dm, probes=(), subset="full"):
             if 0 <= pos < n:
                 if r is None or not row_matches(r, pos, rows[pos][1], cols, check_index=rows[pos][0]):
                     bad("access", f"position {pos}: got {r}, scan says {rows[pos]}")
+                elif r is not None:
+                    # the Row's own view by column name (name -> position schema of the table): every current column is
+                    # there, under its current name, with the scanned value
+                    count[0] += 1
+                    try:
+                        d = r.to_dict()
+                        okd = set(d) == set(cols) and all(same(d[c], rows[pos][1][c]) for c in cols)
+                    except Exception as e:
+                        okd, d = False, f"raised {type(e).__name__}: {e}"
+                    if not okd:
+                        bad("Row.to_dict", f"position {pos}: got {d}, scan says {rows[pos][1]}")
+                    else:
+                        for c in cols:
+                            if isinstance(c, str) and c.isidentifier() and not c.startswith("_"):
+                                count[0] += 1
+                                if c not in r:
+                                    bad("Row.__contains__", f"position {pos}: column {c!r} of the table is not in the row")
+                                elif not same(getattr(r, c), rows[pos][1][c]):
+                                    bad("Row.__getattr__", f"position {pos} column {c!r}: got {getattr(r, c)!r}, scan says {rows[pos][1][c]!r}")
             elif r is not None:
                 bad("access", f"position {pos} outside the table returned {r}")
         count[0] += 1
